@@ -213,3 +213,22 @@ def signer_vs_free(ex, ec, hf):
     except BTClibRuntimeError:
         return {"signer_refuses_where_the_function_signs": False}
     return {"same_octets": sand(len(got) == len(want), got == want) if len(got) == len(want) else False}
+
+
+@ob("C03", "verify_is_total_on_integer_keys_of_any_size", quick=[dict(ec="ec23_19")], thorough=[dict(ec=c) for c in ("ec23_19", "ec19_23", "ec251_257")],
+    bound="the x-only key handed in as an integer symbolic over -2..2^(8*p_size)+5 (below zero, in the field, between p and the octet boundary, beyond what p_size octets hold), r in 0..p-1, s in 0..n-1, "
+          "one message octet symbolic: verify_ answers a boolean on every path -- never an OverflowError or another foreign exception -- and answers False for every key outside 0..p-1",
+    stubs=_STUBS, functions=["btclib.ecc.ssa.verify_", "btclib.ecc.ssa.assert_as_valid_"], timeout=900, weight=3, min_ok=1, query_timeout_ms=300000)
+def verify_total(ex, ec):
+    name = ec
+    ec = toy.curve(name)
+    toy.install_group_oracle(ex, name)
+    _bound_rejection_loops(ex)
+    n, p = ec.n, ec.p
+    x = ex.int("x", -2, 2 ** (8 * ec.p_size) + 5)
+    r = ex.int("r", 0, p - 1)
+    s = ex.int("s", 0, n - 1)
+    msg = ex.bytes("m", 1)
+    sig = ssa.Sig(r, s, ec, check_validity=False)
+    ok = ssa.verify_(msg, x, sig, ssa.sha256)
+    return {"answers_a_boolean": sor(ok == True, ok == False), "a_key_outside_the_field_never_verifies": sor(sand(0 <= x, x < p), ok == False)}   # noqa: E712
